@@ -612,7 +612,7 @@ def make_config(root, cli, nproc=None):
 
 
 def plugin_session(files, *, cli=None, env_flags=None, tty=False, ci_var=None, pycharm=False, nproc=None, answers=(),
-                   xfail=(), pyproject=None, extra_globals=None, body_hook=None, storage_files=None, shortcut_args=None, finish=True, per_file_globals=None) -> PluginResult:
+                   xfail=(), pyproject=None, extra_globals=None, body_hook=None, storage_files=None, shortcut_args=None, finish=True, per_file_globals=None, cwd_outside=False) -> PluginResult:
     """D-plugin: real pytest_configure -> (real autouse fixture around every test_* function) -> real
     pytest_sessionfinish, with stub config/request/session objects.  File writes are captured in memory."""
     import pytest
@@ -672,7 +672,13 @@ def plugin_session(files, *, cli=None, env_flags=None, tty=False, ci_var=None, p
         cli = ap.parse_args(list(shortcut_args)).inline_snapshot
     cfg = make_config(root, cli, nproc)
     cwd = os.getcwd()
-    os.chdir(root)
+    if cwd_outside:
+        # pytest started from another directory: `cd elsewhere; pytest ../project/test_a.py`
+        with NoTracing():
+            (root.parent / (root.name + "_elsewhere")).mkdir(exist_ok=True)
+        os.chdir(root.parent / (root.name + "_elsewhere"))
+    else:
+        os.chdir(root)
     with NoTracing():
         import shutil
 
